@@ -10,6 +10,7 @@ encrypted-deal term `e`.  Helper lemmas: `Proofs/VssSym.lean`.
 -/
 import DosModel.Gen.VssFacts
 import DosModel.Proofs.VssSym
+import DosModel.Proofs.VssKnows
 import Mathlib.Algebra.Order.Field.Rat
 
 namespace Dos.Props.C08
@@ -421,6 +422,46 @@ theorem response_binds (g : G) (v : Verifier F G) (e : EncDeal F G) (rnd : Nat) 
         · rw [hne sh hsh hvn hi] at hp; cases hp
 
 /-! ### non-vacuity: a concrete dealer, list and verifier over ℚ (`g = 1`) -/
+
+/-! ### confidentiality: attacker knowledge (round 5, review C finding 2; `Model/VssKnows.lean`) -/
+
+/-- **1e. `share_not_derivable` – "can be read only by the member it is addressed to".**  For a deal of an
+honest dealer to an honest recipient, the share value – and the AEAD key – is NOT derivable (Dolev–Yao
+closure `Knows`: pairing/projection, exponentiation with known secrets, HKDF and hashing forward,
+sealing, opening with a known key) from everything on the wire – all public keys, the DH key, the
+ciphertext – together with EVERY OTHER secret in the system (`others`: the long-term keys of all other
+members, any ephemerals of the attacker's own), provided the attacker holds neither the ephemeral secret
+nor the recipient's long-term key, nor the share value itself.  Idealised cryptography: names are
+unguessable, the discrete logarithm, HKDF and the AEAD cannot be inverted. -/
+theorem share_not_derivable (s : Knows.Scene) (he : s.eph ∉ s.others) (hl : s.long ∉ s.others)
+    (hv : s.v ∉ s.others) (hne : s.eph ≠ s.long) :
+    ¬ Knows.Knows s.wire (.name s.v) ∧ ¬ Knows.Knows s.wire s.key :=
+  ⟨fun h => hv (Knows.knows_good s he hl hne h), fun h => Knows.key_not_good s (Knows.knows_good s he hl hne h)⟩
+
+/-- the closure is not empty-handed: the ADDRESSEE (the wire plus its own long-term key) derives the share … -/
+theorem addressee_derives_share (s : Knows.Scene) :
+    Knows.Knows (fun t => s.wire t ∨ t = .name s.long) (.name s.v) := by
+  have hdh : Knows.Knows (fun t => s.wire t ∨ t = .name s.long) (.pt [s.eph]) :=
+    .init (Or.inl (Or.inr (Or.inr (Or.inr (Or.inr (Or.inl rfl))))))
+  have hk : Knows.Knows (fun t => s.wire t ∨ t = .name s.long) s.key :=
+    .kdf s.ctx (.perm (.exp (.init (Or.inr rfl)) hdh) (List.Perm.swap _ _ _))
+  exact .open_ (.init (Or.inl (Or.inr (Or.inr (Or.inr (Or.inr (Or.inr rfl))))))) hk
+
+/-- … and so does anybody once the ephemeral secret is on the wire (the reviewer's escape E9: `EncryptedDeal`
+appending the ephemeral secret to `DHKey`): the hypothesis `eph ∉ others` of `share_not_derivable` is what the
+field-length and observer oracles of go/props/c08 watch on the real code. -/
+theorem leaked_ephemeral_reveals_share (s : Knows.Scene) :
+    Knows.Knows (fun t => s.wire t ∨ t = .name s.eph) (.name s.v) := by
+  have hpk : Knows.Knows (fun t => s.wire t ∨ t = .name s.eph) (.pt [s.long]) :=
+    .init (Or.inl (Or.inr (Or.inr (Or.inr (Or.inl rfl)))))
+  have hk : Knows.Knows (fun t => s.wire t ∨ t = .name s.eph) s.key :=
+    .kdf s.ctx (.exp (.init (Or.inr rfl)) hpk)
+  exact .open_ (.init (Or.inl (Or.inr (Or.inr (Or.inr (Or.inr (Or.inr rfl))))))) hk
+
+/-- the hypotheses of `share_not_derivable` hold on a concrete scene: members 1..3 (recipient 2), dealer 10,
+ephemeral 20, share value 30; the attacker holds members 1 and 3 and an ephemeral 21 of its own -/
+example : let s : Knows.Scene := ⟨10, 2, 20, 30, 0, [1, 3, 21], [1, 2, 3]⟩
+    s.eph ∉ s.others ∧ s.long ∉ s.others ∧ s.v ∉ s.others ∧ s.eph ≠ s.long := by decide
 
 section Examples
 /-- members' keys 5, 7, 9 (`g = 1`), dealer key 3, polynomial `4 + 2x`, deal for member 1 -/
